@@ -9,52 +9,61 @@ Algebraic part: any field, any finite face / cell index sets, abstract divergenc
 -/
 import DarsiaProofs.Saddle
 import DarsiaProofs.SolveLoop
+import DarsiaProofs.WassersteinAux
 import DarsiaGen.SolveLoopGen
 namespace Darsia.C04
 open Darsia Darsia.SolveLoop
 
-/-! ### status: honest `converged`, distance = cost of the returned flux, faults -/
+/-! ### status: honest `converged`, distance = cost of the returned flux, faults at every program point
 
-/-- generated obligation: both `_solve` methods have the repaired shape (explicit flag set only on the
-criteria `break`; handler restores the last valid iterate and its distance; distance initialised with the
-cost of the initial iterate). Everything below is re-proved against what the AST extraction found. -/
-theorem code_is_repaired : ∀ m, Gen.shapeOf m = .repaired := by
+`Gen.codeOf m` is extracted from the AST of the running `_solve` methods: the statements of the try body in source
+order with their effect on the returned iterate / distance, what the handler restores, how `converged` is computed,
+how the distance and the loop variable are initialised. `Event.fail branch pos` raises at statement `pos` of body
+`branch`: the theorems quantify over ALL environments, hence over a fault at ANY statement of ANY pass. -/
+
+/-- generated obligation: both `_solve` methods have the sound shape (explicit flag set only on the criteria
+`break`; handler restores the last valid iterate and its distance; distance initialised with the cost of the initial
+iterate; loop variable bound before the loop). Everything below is re-proved against what the AST extraction found. -/
+theorem code_is_sound : ∀ m, (Gen.codeOf m).sound = true := by
   intro m; cases m <;> decide
 
 /-- `converged` is reported only if the stopping criteria were met: the last executed pass `i` completed,
 evaluated the criteria to true (which the code does only for `iter > 1`), and every earlier pass completed. -/
 theorem converged_sound (m : Method) (n : Nat) (env : Nat → Event) :
-    converged (Gen.shapeOf m) n env (run (Gen.shapeOf m) m n env) = .ok true →
-      ∃ i, i < n ∧ 1 < i ∧ env i = .ok true ∧ (run (Gen.shapeOf m) m n env).iter = some i ∧
+    converged (Gen.codeOf m) n env (run (Gen.codeOf m) n env) = .ok true →
+      ∃ i, i < n ∧ 1 < i ∧ env i = .ok true ∧ (run (Gen.codeOf m) n env).iter = some i ∧
         AllOkBefore env i := by
-  rw [code_is_repaired m]
   intro h
-  have hg := good_run env m n
+  have hs := code_is_sound m
+  have hg := good_run hs env n
+  obtain ⟨_, _, h3, _, _⟩ := sound_fields hs
   unfold converged at h
+  rw [h3] at h
   split at h
   · cases h
-  · simp only [Except.ok.injEq] at h
+  · simp only [if_true, Except.ok.injEq] at h
     exact hg.flagged h
 
 /-- the reported distance is the transport cost of exactly the returned iterate -/
 theorem distance_is_cost_of_returned_flux (m : Method) (n : Nat) (env : Nat → Event) :
-    (run (Gen.shapeOf m) m n env).distTag = some (run (Gen.shapeOf m) m n env).solTag := by
-  rw [code_is_repaired m]
-  exact (good_run env m n).consistent
+    (run (Gen.codeOf m) n env).distTag = some (run (Gen.codeOf m) n env).solTag :=
+  (good_run (code_is_sound m) env n).consistent
 
 /-- the status is always defined (also for `num_iter = 0`) -/
 theorem converged_total (m : Method) (n : Nat) (env : Nat → Event) :
-    ∃ b, converged (Gen.shapeOf m) n env (run (Gen.shapeOf m) m n env) = .ok b := by
-  rw [code_is_repaired m]
+    ∃ b, converged (Gen.codeOf m) n env (run (Gen.codeOf m) n env) = .ok b := by
+  obtain ⟨_, _, h3, _, _⟩ := sound_fields (code_is_sound m)
   unfold converged
+  rw [h3]
   split
   · exact ⟨false, rfl⟩
   · exact ⟨_, rfl⟩
 
-/-- if an inner step fails at any iteration that is reached, the run is flagged non-converged -/
+/-- if an inner step fails — at ANY statement of the loop body — in any pass that is reached, the run is flagged
+non-converged -/
 theorem fault_flags_nonconverged (m : Method) (n : Nat) (env : Nat → Event) (j : Nat)
     (hr : Reaches env j) (_hj : j < n) (hf : (env j).isFail = true) :
-    converged (Gen.shapeOf m) n env (run (Gen.shapeOf m) m n env) = .ok false := by
+    converged (Gen.codeOf m) n env (run (Gen.codeOf m) n env) = .ok false := by
   obtain ⟨b, hb⟩ := converged_total m n env
   cases b with
   | false => exact hb
@@ -70,58 +79,67 @@ theorem fault_flags_nonconverged (m : Method) (n : Nat) (env : Nat → Event) (j
       cases hb'
       exact hnb ⟨hi1, rfl⟩
 
-/-- … and the result still describes the last valid iterate: solution and distance are those of iterate
-`j` (the `j` completed passes), `number_iterations` is the index of the failing pass. -/
+/-- … and the result still describes the last valid iterate: solution and distance are those of iterate `j` (the `j`
+completed passes), `number_iterations` is the index of the failing pass. -/
 theorem fault_returns_last_valid_iterate (m : Method) (n : Nat) (env : Nat → Event) (j : Nat)
     (hr : Reaches env j) (hj : j < n) (hf : (env j).isFail = true) :
-    (run (Gen.shapeOf m) m n env).solTag = j ∧ (run (Gen.shapeOf m) m n env).distTag = some j ∧
-      (run (Gen.shapeOf m) m n env).iter = some j := by
-  rw [code_is_repaired m]
-  have := runFrom_fault hr hf n 0 (init .repaired m) (by simp [init]) (Nat.zero_le j) (by omega)
-    (by simp [init]) (by simp [init]) (by simp [init])
+    (run (Gen.codeOf m) n env).solTag = j ∧ (run (Gen.codeOf m) n env).distTag = some j ∧
+      (run (Gen.codeOf m) n env).iter = some j := by
+  have hs := code_is_sound m
+  obtain ⟨_, _, _, h4, _⟩ := sound_fields hs
+  have := runFrom_fault hs hr hf n 0 (init (Gen.codeOf m)) (by simp [init]) (Nat.zero_le j) (by omega)
+    (by simp [init]) (by simp [init, h4]) (by simp [init])
   exact ⟨this.1, this.2.1, this.2.2.1⟩
+
+/-- the program point of the fault is irrelevant for the running code: raising at statement `a` of body `b` or at
+statement `a'` of body `b'` leaves the same state (the as-found code below distinguishes them) -/
+theorem fault_point_irrelevant (m : Method) (s : LoopState) (i b a b' a' : Nat) :
+    step (Gen.codeOf m) s i (.fail b a) = step (Gen.codeOf m) s i (.fail b' a') := by
+  rw [step_fail (code_is_sound m), step_fail (code_is_sound m)]
 
 /-- a NaN distance (Bregman's early return) is never reported as converged -/
 theorem nan_not_converged (m : Method) (n : Nat) (env : Nat → Event) (j : Nat)
-    (hi : (run (Gen.shapeOf m) m n env).iter = some j) (hs : (run (Gen.shapeOf m) m n env).stopped = true)
+    (hi : (run (Gen.codeOf m) n env).iter = some j) (hs : (run (Gen.codeOf m) n env).stopped = true)
     (hn : env j = .nan) :
-    converged (Gen.shapeOf m) n env (run (Gen.shapeOf m) m n env) = .ok false := by
+    converged (Gen.codeOf m) n env (run (Gen.codeOf m) n env) = .ok false := by
   unfold converged endedByNan
   simp [hi, hs, hn]
 
-/-- non-vacuity: with `num_iter = 6` and criteria met at pass 3 the repaired loop reports convergence with
-iterate 4; a failure at pass 1 returns iterate 1, not converged -/
-example : let r := run .repaired .newton 6 (envOf [.ok false, .ok false, .ok false, .ok true])
-    converged .repaired 6 (envOf [.ok false, .ok false, .ok false, .ok true]) r = .ok true ∧
-      r.solTag = 4 ∧ r.distTag = some 4 := by decide
-
-example : let r := run .repaired .bregman 6 (envOf [.ok false, .failAfterUpdate])
-    converged .repaired 6 (envOf [.ok false, .failAfterUpdate]) r = .ok false ∧
-      r.solTag = 1 ∧ r.distTag = some 1 := by decide
+/-- non-vacuity: with `num_iter = 6` and criteria met at pass 3 a sound loop reports convergence with iterate 4; a
+failure of the distance evaluation in pass 1 returns iterate 1, not converged -/
+example : let c := repairedNewton
+    let e1 := envOf [.ok false, .ok false, .ok false, .ok true]
+    let e2 := envOf [.ok false, .fail 0 4]
+    c.sound = true ∧ converged c 6 e1 (run c 6 e1) = .ok true ∧ (run c 6 e1).solTag = 4 ∧
+      converged c 6 e2 (run c 6 e2) = .ok false ∧ (run c 6 e2).solTag = 1 ∧ (run c 6 e2).distTag = some 1 := by
+  decide
 
 /-! ### the code as found violated all three statements (witnesses) -/
 
-/-- as found: a failure of the very first inner solve is reported as `converged = True` … -/
+/-- as found: a failure of the very first inner solve (statement 1 of the Newton body) is reported as
+`converged = True` … -/
 theorem asFound_converged_unsound :
-    converged .asFound 5 (fun _ => .failBeforeUpdate) (run .asFound .newton 5 fun _ => .failBeforeUpdate)
-      = .ok true := by decide
+    converged asFoundNewton 5 (fun _ => .fail 0 1) (run asFoundNewton 5 fun _ => .fail 0 1) = .ok true := by decide
 
 /-- … with distance the literal `0` (no iterate) next to the non-trivial initial flux (iterate 0) -/
 theorem asFound_distance_not_cost :
-    (run .asFound .bregman 5 fun _ => .failBeforeUpdate).distTag = none ∧
-      (run .asFound .bregman 5 fun _ => .failBeforeUpdate).solTag = 0 := by decide
+    (run asFoundBregman 5 fun _ => .fail 1 0).distTag = none ∧
+      (run asFoundBregman 5 fun _ => .fail 1 0).solTag = 0 := by decide
 
-/-- as found: a failure after the update leaves the new iterate with the previous iterate's distance -/
+/-- as found: a failure after the update (in the distance evaluation, statement 4) leaves the new iterate with the
+previous iterate's distance; the same failure before the update (statement 1) does not — the program point was
+observable -/
 theorem asFound_stale_distance :
-    (run .asFound .newton 5 (envOf [.ok false, .failAfterUpdate])).distTag = some 1 ∧
-      (run .asFound .newton 5 (envOf [.ok false, .failAfterUpdate])).solTag = 2 ∧
-      converged .asFound 5 (envOf [.ok false, .failAfterUpdate])
-        (run .asFound .newton 5 (envOf [.ok false, .failAfterUpdate])) = .ok true := by decide
+    (run asFoundNewton 5 (envOf [.ok false, .fail 0 4])).distTag = some 1 ∧
+      (run asFoundNewton 5 (envOf [.ok false, .fail 0 4])).solTag = 2 ∧
+      (run asFoundNewton 5 (envOf [.ok false, .fail 0 1])).solTag = 1 ∧
+      converged asFoundNewton 5 (envOf [.ok false, .fail 0 4])
+        (run asFoundNewton 5 (envOf [.ok false, .fail 0 4])) = .ok true := by decide
 
 /-- as found: Newton with `num_iter = 0` raised `UnboundLocalError` instead of returning the initial iterate -/
 theorem asFound_newton_zero_iter_raises (env : Nat → Event) :
-    converged .asFound 0 env (run .asFound .newton 0 env) = .error .unbound := by
-  simp [converged, run, runFrom, init, endedByNan]
+    converged asFoundNewton 0 env (run asFoundNewton 0 env) = .error .unbound := by
+  simp [converged, run, runFrom, init, endedByNan, asFoundNewton]
 
 /-! ### algebra: mass balance (all grids, all positive weights) -/
 
@@ -174,5 +192,66 @@ theorem pressure_pinned {w : F → K} {D : C → F → K} {k : C} {g : F → K} 
 theorem newton_keeps_pressure_pinned {w : F → K} {D : C → F → K} {k : C} {g : F → K} {f : C → K}
     {du : F → K} {p dp : C → K} {dlam : K} (h : Full w D k g f (0 - p k) du dp dlam) :
     p k + dp k = 0 := by rw [h.pin]; ring
+
+/-! ### auxiliary outputs derive from the returned flat solution (`__call__`) -/
+
+open Darsia.WAux
+
+/-- **aux_from_solution**: cell flux, weighted flux, pressure, transport density and distance returned by
+`__call__` are determined by the dofs of the flat solution `_solve` returned: two flat solutions that agree on the
+flux and pressure dofs give the same outputs at every cell of the grid (nothing else — no hidden state, no other
+iterate — enters). -/
+theorem aux_from_solution (N : (Nat → Rat) → Rat) (shape : List Nat) (h : List Rat) (nq : Nat) (wq : Nat → Rat)
+    (ptq : Nat → List Rat) (wgt : List Nat → Nat → Rat) (x x' : Nat → Rat)
+    (hx : ∀ i, i < numFaces shape + numCells shape → x i = x' i) (idx : List Nat) (hidx : inBox shape idx = true) :
+    (callOut N shape h nq wq ptq wgt x).flux idx = (callOut N shape h nq wq ptq wgt x').flux idx ∧
+    (callOut N shape h nq wq ptq wgt x).weightedFlux idx = (callOut N shape h nq wq ptq wgt x').weightedFlux idx ∧
+    (callOut N shape h nq wq ptq wgt x).pressure idx = (callOut N shape h nq wq ptq wgt x').pressure idx ∧
+    (callOut N shape h nq wq ptq wgt x).density idx = (callOut N shape h nq wq ptq wgt x').density idx ∧
+    (callOut N shape h nq wq ptq wgt x).distance = (callOut N shape h nq wq ptq wgt x').distance := by
+  have hf : ∀ f, f < numFaces shape → x f = x' f := fun f hf => hx f (by omega)
+  have hc := encF_lt shape idx hidx
+  refine ⟨?_, cellVec_congr hf wgt _ hidx, hx _ (by unfold numCells; omega), ?_, cost_congr N h hf nq wq ptq wgt⟩
+  · funext a; exact faceToCell_congr hf _ hidx a
+  · exact transportDensity_congr N hf nq wq ptq wgt hc
+
+/-- flux-type outputs (cell flux, weighted flux, transport density, distance) read the flux dofs only: they do not
+change with the pressure or the multiplier … -/
+theorem aux_flux_outputs_from_flux_dofs (N : (Nat → Rat) → Rat) (shape : List Nat) (h : List Rat) (nq : Nat)
+    (wq : Nat → Rat) (ptq : Nat → List Rat) (wgt : List Nat → Nat → Rat) (x x' : Nat → Rat)
+    (hx : ∀ f, f < numFaces shape → x f = x' f) (idx : List Nat) (hidx : inBox shape idx = true) :
+    (callOut N shape h nq wq ptq wgt x).flux idx = (callOut N shape h nq wq ptq wgt x').flux idx ∧
+    (callOut N shape h nq wq ptq wgt x).weightedFlux idx = (callOut N shape h nq wq ptq wgt x').weightedFlux idx ∧
+    (callOut N shape h nq wq ptq wgt x).density idx = (callOut N shape h nq wq ptq wgt x').density idx ∧
+    (callOut N shape h nq wq ptq wgt x).distance = (callOut N shape h nq wq ptq wgt x').distance := by
+  refine ⟨?_, cellVec_congr hx wgt _ hidx, transportDensity_congr N hx nq wq ptq wgt (encF_lt shape idx hidx),
+    cost_congr N h hx nq wq ptq wgt⟩
+  funext a; exact faceToCell_congr hx _ hidx a
+
+/-- … and the pressure output is the `order="F"` reshape of the pressure dofs: cell number `c` lands at the
+multi-index `decF shape c`; in particular the pinned cell `k` shows `x (num_faces + k)` (= 0 by `pressure_pinned`). -/
+theorem aux_pressure_reshape (N : (Nat → Rat) → Rat) (shape : List Nat) (h : List Rat) (nq : Nat) (wq : Nat → Rat)
+    (ptq : Nat → List Rat) (wgt : List Nat → Nat → Rat) (x : Nat → Rat) (c : Nat) (hc : c < numCells shape) :
+    (callOut N shape h nq wq ptq wgt x).pressure (decF shape c) = x (numFaces shape + c) := by
+  show x (numFaces shape + encF shape (decF shape c)) = _
+  rw [encF_decF shape c hc]
+
+/-- the reported distance is the cell-volume-weighted sum of the returned transport density -/
+theorem aux_distance_is_integral_of_density (N : (Nat → Rat) → Rat) (shape : List Nat) (h : List Rat) (nq : Nat)
+    (wq : Nat → Rat) (ptq : Nat → List Rat) (wgt : List Nat → Nat → Rat) (x : Nat → Rat) :
+    (callOut N shape h nq wq ptq wgt x).distance
+      = sumTo (numCells shape) fun c => vol h * (callOut N shape h nq wq ptq wgt x).density (decF shape c) := by
+  show cost N shape h nq wq ptq wgt x = _
+  unfold cost
+  apply sumTo_congr
+  intro c hc
+  show _ = vol h * transportDensity N shape nq wq ptq wgt x (encF shape (decF shape c))
+  rw [encF_decF shape c hc]
+
+/-- the weighted flux is the cell flux scaled by the cell weight, component by component -/
+theorem aux_weighted_flux (N : (Nat → Rat) → Rat) (shape : List Nat) (h : List Rat) (nq : Nat) (wq : Nat → Rat)
+    (ptq : Nat → List Rat) (wgt : List Nat → Nat → Rat) (x : Nat → Rat) (idx : List Nat) (a : Nat) :
+    (callOut N shape h nq wq ptq wgt x).weightedFlux idx a
+      = wgt idx a * (callOut N shape h nq wq ptq wgt x).flux idx a := rfl
 
 end Darsia.C04
